@@ -226,7 +226,10 @@ def b_spell(ch):
     kind = ch.choose('obj', OBJ_KINDS)
     rname, m = motion_of(ch, ROTS6)
     sp = ch.choose('spelling', SPELLINGS)
-    return build_state(kind, rname, m, sp)
+    st = build_state(kind, rname, m, sp)
+    # the image does not depend on whether identical surfaces are merged afterwards
+    st.options = ch.choose('options', [[], ['--skip-deduplication']])
+    return st
 
 
 def b_transl3(ch):
